@@ -5,10 +5,24 @@ from typing import List
 
 from ..kit import Ctx, caller_ok, calls, calls_target, deferred_calls, kw, loops, rule, short
 from ..paths import Event
-from ..terms import NONE, key, strip_ver
+from ..terms import NONE, Term, key, strip_ver, subterms
 from .runner import ADD, CANCEL, EXEC, HO, handling_blocks
 
 UPD = "Simulator._update_agents_for_execution"
+
+
+def _is_lookup_of(recv: Term, owner: Term) -> bool:
+    """recv is the agent the simulator finds under the id `owner`: id2agent[owner], or a look-up through the
+    simulator's own tables that depends on that id and on nothing else of the occurrence"""
+    r = strip_ver(recv)
+    if r == _agent_lookup(owner):
+        return True
+    if r[0] not in ("sub", "call"):
+        return False
+    has_owner = any(x == owner for x in subterms(r))
+    rooted = any(key(x) in ("self.simulator", "self") for x in subterms(r))
+    foreign = [x for x in subterms(r) if x[0] == "attr" and x[2].endswith("agent_id") and x != owner]
+    return has_owner and rooted and not foreign
 
 
 def _agent_lookup(idterm):
@@ -27,7 +41,15 @@ def r1(ctx: Ctx) -> None:
         trig = "_trigger_event_after_order" if b.kind == "order" else "_trigger_event_after_cancel"
         owner = ("attr", b.elem, "agent_id") if b.kind == "order" else ("attr", ("attr", b.elem, "order"), "agent_id")
         cbs = [e for e in evs if e.kind == "call" and e.name in ("submitted_order", "canceled_order")]
-        good = [e for e in cbs if e.name == cb_name and kw(e, "log", 0) == b.accept.term and e.recv is not None and strip_ver(e.recv) == _agent_lookup(owner)]
+        owners = [owner]
+        cm = ctx.program.cls("Cancel").methods.get("agent_id") if b.kind == "cancel" and "Cancel" in ctx.program.classes else None
+        if cm is not None and cm.is_property:
+            import ast as _ast
+
+            body = [x for x in cm.node.body if not (isinstance(x, _ast.Expr) and isinstance(x.value, _ast.Constant))]
+            if len(body) == 1 and isinstance(body[0], _ast.Return) and body[0].value is not None and _ast.unparse(body[0].value) == "self.order.agent_id":
+                owners.append(("attr", b.elem, "agent_id"))  # Cancel.agent_id is the id of the cancelled order's agent
+        good = [e for e in cbs if e.name == cb_name and kw(e, "log", 0) == b.accept.term and e.recv is not None and any(_is_lookup_of(e.recv, o) for o in owners)]
         ok = len(cbs) == 1 and len(good) == 1 and evs.index(good[0]) > i
         if not cbs:
             sib = [o for o in blocks if o is not b and o.phase == b.phase and o.kind == b.kind and any(e.kind == "call" and e.name == cb_name for e in o.path.events)]
@@ -118,7 +140,8 @@ def r2(ctx: Ctx) -> None:
                 cbs = [e for e in calls(bp) if e.name == "executed_order"]
                 want = {short(_agent_lookup(("attr", el, "buy_agent_id"))), short(_agent_lookup(("attr", el, "sell_agent_id")))}
                 got = [short(strip_ver(e.recv)) for e in cbs if kw(e, "log", 0) == el]
-                ok = len(cbs) == 2 and sorted(got) == sorted(want) and not bp.conds and bp.exit[0] == "fall"
+                parties = sorted(("buyer" if _is_lookup_of(e.recv, ("attr", el, "buy_agent_id")) else ("seller" if _is_lookup_of(e.recv, ("attr", el, "sell_agent_id")) else "?")) for e in cbs if kw(e, "log", 0) == el and e.recv is not None)
+                ok = len(cbs) == 2 and (sorted(got) == sorted(want) or parties == ["buyer", "seller"]) and not bp.conds and bp.exit[0] == "fall"
                 dfr = deferred_calls(bp, "executed_order")
                 if not ok and bp.conds and bp.exit[0] == "fall" and not dfr and all(kw(e, "log", 0) == el for e in cbs) and all(short(strip_ver(e.recv)) in want for e in cbs) and len(cbs) <= 2:
                     ctx.unrec(f, l.node, f"{b.phase} {b.kind}: buyer and seller of each fill are told once each", "a call back is made under a condition that is not modelled (whether the skipped call would have done nothing is not decided)", bp.describe()[:160])
